@@ -28,6 +28,10 @@ def _run_rules(ctx, report):
         report.guard("C09.ASSERT", W.assert_rules, ctx, report, "C09.ASSERT", facts, config)
         report.guard("C09.INSERT", W.insert_rules, ctx, report, "C09.INSERT", facts, config)
         report.guard("C09.GUARD", W.guard_rules, ctx, report, "C09.GUARD", facts, config)
+        # "entry-or-insert never overwrites" as the library itself relies on it: its setup code reaches the table only through
+        # the entry API (C13's NOCLOBBER, imported)
+        from . import c13 as _c13
+        report.guard("C09.ENTRY", _c13.noclobber, ctx, report, facts, config, "C09.ENTRY")
 
 
 ENCAPSULATED_NOTE = (" (ENCAPSULATED) The premise of all of these - the crate's own code is the only thing that touches this state - is an obligation "
